@@ -772,6 +772,379 @@ fn check_fixture_sanity(i: u64, rec: &mut Rec) -> CaseResult {
 }
 
 
+
+// ------------------------------------------------------------------------------ generated WOFF2
+
+mod w2gen {
+    //! Tables reconstructed by the WOFF2 provider from *generated* WOFF2 files (font models and
+    //! builders of C11, `fontgen::woff2` encoder): mutual consistency of head / maxp / hhea /
+    //! hmtx / loca / glyf through the independent validator, plus self-load.
+    use super::*;
+    use crate::fontgen::basic;
+    use crate::fontgen::glyfgen::{self as gg, Glyph, Simple};
+    use crate::fontgen::woff2 as w2;
+    use crate::props::c11::{self, Built, DKind, DTable, Group, Member};
+
+    pub const KNOWN_HMTX_SIG: &str = "C11:hmtx-lsb-array-not-skipping-long-metrics";
+    const TTCF: u32 = 0x7474_6366;
+
+    #[derive(Clone, Debug)]
+    pub struct EncOpts {
+        /// per glyph group: 0 = null transform, else transform 0
+        pub glyf_xform: Vec<u8>,
+        /// per hmtx table: wanted flag bits (masked by what is legal for the metrics)
+        pub hmtx_want: Vec<u8>,
+        pub order: Vec<u16>,
+        pub choices: Vec<u8>,
+        pub bbox_choose: bool,
+        pub v2: bool,
+        pub chunk: u32,
+    }
+
+    pub fn enc_strategy() -> impl Strategy<Value = EncOpts> {
+        (
+            proptest::collection::vec(prop_oneof![1 => Just(0u8), 3 => Just(1u8)], 3),
+            proptest::collection::vec(0u8..4, 3),
+            proptest::collection::vec(any::<u16>(), 0..6),
+            proptest::collection::vec(any::<u8>(), 0..16),
+            any::<bool>(),
+            any::<bool>(),
+            prop_oneof![Just(65536u32), 64u32..5000, Just(1u32 << 20)],
+        )
+            .prop_map(|(glyf_xform, hmtx_want, order, choices, bbox_choose, v2, chunk)| EncOpts { glyf_xform, hmtx_want, order, choices, bbox_choose, v2, chunk })
+    }
+
+    pub struct Plan {
+        pub group_xf: Vec<bool>,
+        /// per dtable
+        pub hmtx_flags: Vec<u8>,
+    }
+
+    pub fn plan(b: &Built, e: &EncOpts) -> Plan {
+        let group_xf: Vec<bool> = (0..b.groups.len()).map(|g| e.glyf_xform[g % e.glyf_xform.len()] != 0).collect();
+        let mut hmtx_flags = vec![0u8; b.dtables.len()];
+        let mut k = 0;
+        for (i, t) in b.dtables.iter().enumerate() {
+            if let DKind::Hmtx { group: Some(g), legal, .. } = &t.kind {
+                let want = e.hmtx_want[k % e.hmtx_want.len()];
+                k += 1;
+                // hmtx is only transformed together with glyf (the transform needs the glyph boxes)
+                if group_xf[*g] {
+                    hmtx_flags[i] = want & legal;
+                }
+            }
+        }
+        Plan { group_xf, hmtx_flags }
+    }
+
+    pub fn encode(b: &Built, p: &Plan, e: &EncOpts) -> Vec<u8> {
+        let mut ch = w2::Choices::new(&e.choices);
+        let mut st = w2::XStats::new();
+        let policy = if e.bbox_choose { w2::BboxPolicy::Choose } else { w2::BboxPolicy::ElideWhenEqual };
+        // directory order: by generated keys, every loca directly behind its glyf
+        let mut idx: Vec<usize> = (0..b.dtables.len()).collect();
+        if !e.order.is_empty() {
+            idx.sort_by_key(|i| (e.order[i % e.order.len()].wrapping_mul(*i as u16 + 1), *i));
+        }
+        let mut order = Vec::with_capacity(idx.len());
+        for i in idx {
+            match b.dtables[i].kind {
+                DKind::Loca(_) => {}
+                DKind::Glyf(g) => {
+                    order.push(i);
+                    if let Some(l) = b.dtables.iter().position(|t| matches!(t.kind, DKind::Loca(x) if x == g)) {
+                        order.push(l);
+                    }
+                }
+                _ => order.push(i),
+            }
+        }
+        let mut dir_pos = vec![0u16; b.dtables.len()];
+        let mut tabs = Vec::with_capacity(order.len());
+        for (pos, &i) in order.iter().enumerate() {
+            dir_pos[i] = pos as u16;
+            let t = &b.dtables[i];
+            let et = match &t.kind {
+                DKind::Plain => w2::EncTable::plain(t.tag, &t.data, false),
+                DKind::Glyf(g) if p.group_xf[*g] => {
+                    let grp = &b.groups[*g];
+                    let data = w2::transform_glyf(&grp.glyphs, if grp.long { 1 } else { 0 }, policy, None, &mut ch, &mut st);
+                    w2::EncTable::transformed(t.tag, 0, t.data.len() as u32, data, false)
+                }
+                DKind::Loca(g) if p.group_xf[*g] => w2::EncTable::transformed(t.tag, 0, t.data.len() as u32, Vec::new(), false),
+                DKind::Glyf(_) | DKind::Loca(_) => w2::EncTable::plain(t.tag, &t.data, false),
+                DKind::Hmtx { metrics, nhm, .. } => {
+                    if p.hmtx_flags[i] != 0 {
+                        w2::EncTable::transformed(t.tag, 1, t.data.len() as u32, w2::transform_hmtx(metrics, *nhm, p.hmtx_flags[i]), false)
+                    } else {
+                        w2::EncTable::plain(t.tag, &t.data, false)
+                    }
+                }
+            };
+            tabs.push(et);
+        }
+        let total: usize = tabs.iter().map(|t| t.data.len()).sum();
+        let opts = w2::ContainerOpts {
+            brotli: w2::BrotliOpts { wbits: 16, chunks: vec![if total > 8192 { e.chunk.max(64) } else { e.chunk.max(1) }], meta_every: 0, meta_skip: 0 },
+            major: 1,
+            minor: 0,
+            metadata: None,
+            private: Vec::new(),
+        };
+        if b.members.len() == 1 {
+            w2::encode_woff2(b.members[0].flavour, &tabs, None, &opts, &mut ch, &mut st)
+        } else {
+            let fonts = b
+                .members
+                .iter()
+                .map(|m| {
+                    let mut idx: Vec<u16> = m.tables.iter().map(|t| dir_pos[*t]).collect();
+                    idx.sort_by_key(|i| b.dtables[order[*i as usize]].tag);
+                    (m.flavour, idx)
+                })
+                .collect();
+            let col = w2::EncCollection { version: if e.v2 { 0x0002_0000 } else { 0x0001_0000 }, fonts };
+            w2::encode_woff2(TTCF, &tabs, Some(&col), &opts, &mut ch, &mut st)
+        }
+    }
+
+    /// Validate what the provider delivers for every member of the generated file.
+    pub fn check_delivered(b: &Built, p: &Plan, bytes: &[u8], what: &str, rec: &mut Rec) -> CaseResult {
+        rec.artefact("woff2", bytes);
+        rec.hash_bytes(bytes);
+        let fd = ReadScope::new(bytes).read::<FontData<'_>>().map_err(|e| fail("woff2-generated:read", format!("{}: FontData::read of a conforming generated WOFF2: {:?}", what, e)))?;
+        let mut known: Option<Fail> = None;
+        for (mi, m) in b.members.iter().enumerate() {
+            let who = format!("{} member {}", what, mi);
+            let prov = fd.table_provider(mi).map_err(|e| fail("woff2-generated:provider", format!("{}: table_provider: {:?}", who, e)))?;
+            let mut tables = provider_tables(&prov).ok_or_else(|| fail("woff2-generated:provider", format!("{}: no tag list", who)))?;
+            // the CFF flavoured members of the C11 model carry placeholder bytes, not a CFF table
+            tables.remove(b"CFF ");
+            // members of a generated collection may share one cmap although their glyph counts differ
+            // (model artefact); this section is about head/maxp/hhea/hmtx/loca/glyf
+            if b.members.len() > 1 {
+                tables.remove(b"cmap");
+            }
+            let hm_i = m.tables.iter().copied().find(|t| matches!(b.dtables[*t].kind, DKind::Hmtx { .. }));
+            let (flags, nhm, nglyphs) = match hm_i.map(|t| (&b.dtables[t].kind, t)) {
+                Some((DKind::Hmtx { metrics, nhm, .. }, t)) => (p.hmtx_flags[t], *nhm, metrics.len()),
+                _ => (0, 0, 0),
+            };
+            let trep = validate_tables(&as_refs(&tables), Opts { exact_sizes: true, charstrings: false });
+            for i in &trep.issues {
+                match i.code {
+                    // the model places arbitrary component ids (self references included)
+                    "glyf:component-cycle" => rec.class("w2gen:model-has-component-cycle"),
+                    "hmtx:too-long"
+                        if flags & w2::HMTX_NO_MONOSPACE_LSB != 0
+                            && tables.get(b"hmtx").map(|h| h.len()) == Some(4 * nhm + 2 * (nglyphs - nhm) + 2 * nhm) =>
+                    {
+                        // known finding of C11 (defect model: lsb array rebuilt from glyph 0 instead of
+                        // glyph numberOfHMetrics): exactly 2 * numberOfHMetrics bytes too long, flag bit 1 set
+                        known.get_or_insert(Fail::new(KNOWN_HMTX_SIG, format!("{}: hmtx flags {:#04b}, numberOfHMetrics {}, numGlyphs {}: {}", who, flags, nhm, nglyphs, i.msg)));
+                    }
+                    _ => return Err(fail(&format!("woff2-generated:{}", i.code), format!("{}: {}", who, i.msg))),
+                }
+            }
+            if trep.num_glyphs.map(usize::from) != Some(nglyphs) {
+                return Err(fail("woff2-generated:num-glyphs", format!("{}: maxp.numGlyphs {:?}, model has {}", who, trep.num_glyphs, nglyphs)));
+            }
+            // self-load: advances of every glyph, outlines of every non-composite glyph
+            let glyphs = m.group.map(|g| &b.groups[g].glyphs);
+            let mut font = Font::new(prov).map_err(|e| fail("woff2-generated:self-load", format!("{}: Font::new: {:?}", who, e)))?;
+            let n = font.num_glyphs();
+            for g in 0..n {
+                if font.horizontal_advance(g).is_none() {
+                    return Err(fail("woff2-generated:self-load", format!("{}: horizontal_advance({}) of {} is None", who, g, n)));
+                }
+            }
+            if let Some(glyphs) = glyphs {
+                let p2 = &font.font_table_provider;
+                let rd = |t: u32| p2.read_table_data(t).map_err(|e| fail("woff2-generated:self-load", format!("{}: table {:08X}: {:?}", who, t, e)));
+                let head_d = rd(tag::HEAD)?;
+                let head = ReadScope::new(&head_d).read::<HeadTable>().map_err(|e| fail("woff2-generated:self-load", format!("{}: head: {:?}", who, e)))?;
+                let loca_d = rd(tag::LOCA)?;
+                let loca = ReadScope::new(&loca_d)
+                    .read_dep::<LocaTable<'_>>((usize::from(n), head.index_to_loc_format))
+                    .map_err(|e| fail("woff2-generated:self-load", format!("{}: loca: {:?}", who, e)))?;
+                let glyf_d = rd(tag::GLYF)?;
+                let mut glyf = ReadScope::new(&glyf_d).read_dep::<GlyfTable<'_>>(&loca).map_err(|e| fail("woff2-generated:self-load", format!("{}: glyf: {:?}", who, e)))?;
+                let mut sink = CountSink(0);
+                let step = (glyphs.len() / 400).max(1);
+                for (g, gl) in glyphs.iter().enumerate().step_by(step) {
+                    // an empty contour is refused by the outline visitor (documented limitation), and
+                    // composites of the model may be cyclic
+                    let visit = match gl {
+                        Glyph::Simple(s) => s.contours.iter().all(|c| !c.is_empty()),
+                        Glyph::Empty | Glyph::EmptyHeader => true,
+                        Glyph::Composite(_) => false,
+                    };
+                    if visit {
+                        glyf.visit(g as u16, &mut sink).map_err(|e| fail("woff2-generated:self-load", format!("{}: outline of glyph {} of {}: {:?}", who, g, n, e)))?;
+                    }
+                }
+            }
+            rec.class(match (m.group, m.group.map(|g| p.group_xf[g])) {
+                (None, _) => "w2gen:no-glyf",
+                (_, Some(true)) => "w2gen:glyf-transformed",
+                _ => "w2gen:glyf-null-transform",
+            });
+            rec.class(&format!("w2gen:hmtx-flags={}", flags));
+            if let (Some(h), Some(g)) = (tables.get(b"head"), m.group) {
+                let src_long = b.groups[g].long;
+                let out_long = h.get(51) == Some(&1);
+                rec.class(match (src_long, out_long) {
+                    (false, false) => "w2gen:loca short->short",
+                    (false, true) => "w2gen:loca short->long (decoder switched)",
+                    (true, true) => "w2gen:loca long->long",
+                    (true, false) => "w2gen:loca long->short",
+                });
+            }
+        }
+        rec.class(if b.members.len() > 1 { "w2gen:collection" } else { "w2gen:single" });
+        rec.evaluations(b.members.len() as u64 - 1);
+        match known {
+            Some(f) => Err(f),
+            None => Ok(()),
+        }
+    }
+
+    pub fn check_generated(c: &(c11::Case, EncOpts), rec: &mut Rec) -> CaseResult {
+        let (case, e) = c;
+        let b = c11::build(case);
+        let p = plan(&b, e);
+        let bytes = encode(&b, &p, e);
+        rec.set_nontrivial(p.group_xf.iter().any(|x| *x));
+        rec.sample(|| format!("generated WOFF2: {} bytes, {} member(s), glyph counts {:?}, glyf xform {:?}", bytes.len(), b.members.len(), b.groups.iter().map(|g| g.glyphs.len()).collect::<Vec<_>>(), p.group_xf));
+        check_delivered(&b, &p, &bytes, "generated WOFF2", rec)
+    }
+
+    // ---- large fonts around the short/long loca boundary
+
+    fn push(b: &mut Built, tag: Tag, data: Vec<u8>, kind: DKind) -> usize {
+        b.dtables.push(DTable { tag, data, kind });
+        b.dtables.len() - 1
+    }
+
+    /// one staircase contour of `npts` points, all deltas small and positive: the compact source
+    /// encoding needs 2 bytes per point, a decoder writing 16-bit deltas needs 5
+    fn stair(npts: usize, instr: usize) -> Glyph {
+        let pts: Vec<(i16, i16, bool)> = (0..npts).map(|k| (3 + 7 * k as i16, 2 + 5 * k as i16, true)).collect();
+        let mut s = Simple { contours: vec![pts], instructions: (0..instr).map(|i| i as u8).collect(), bbox: (0, 0, 0, 0) };
+        s.bbox = s.computed_bbox();
+        Glyph::Simple(s)
+    }
+
+    /// a font of `n` staircase glyphs; the last one carries `extra` instruction bytes
+    fn big_font(n: usize, npts: usize, extra: usize, long: bool, nhm_all: bool, sibling: bool) -> Option<Built> {
+        let mut glyphs: Vec<Glyph> = (0..n).map(|_| stair(npts, 0)).collect();
+        glyphs[n - 1] = stair(npts, extra);
+        let styles = vec![gg::STYLE_SHORT | gg::STYLE_SAME | gg::STYLE_REPEAT; n];
+        let (glyf, loca) = gg::encode_glyf_loca(&glyphs, &styles, long, 2);
+        if !long && glyf.len() > 131_070 {
+            return None;
+        }
+        let nhm = if nhm_all { n } else { (n / 3).max(1) };
+        let metrics: Vec<(u16, i16)> = glyphs.iter().enumerate().map(|(i, g)| (if i < nhm { 500 + (i % 7) as u16 } else { 500 + ((nhm - 1) % 7) as u16 }, g.x_min())).collect();
+        let mut b = Built::default();
+        b.groups.push(Group { glyphs, long, glyf: glyf.clone(), loca: loca.clone() });
+        let mut cmap = BTreeMap::new();
+        cmap.insert(0x41u16, 1u16.min(n as u16 - 1));
+        let mut tables = vec![
+            push(&mut b, *b"head", basic::head(1000, long, (0, -200, 1000, 800)), DKind::Plain),
+            push(&mut b, *b"hhea", basic::hhea(800, -200, 506, nhm as u16), DKind::Plain),
+            push(&mut b, *b"maxp", basic::maxp_v1(n as u16), DKind::Plain),
+            push(&mut b, *b"cmap", basic::cmap_table(&[(3, 1, basic::cmap_format4(&cmap))]), DKind::Plain),
+            push(&mut b, *b"name", basic::name_minimal(), DKind::Plain),
+            push(&mut b, *b"OS/2", basic::os2_v4(0x41, 0x41, 400), DKind::Plain),
+            push(&mut b, *b"post", basic::post_v3(), DKind::Plain),
+        ];
+        tables.push(push(&mut b, *b"hmtx", basic::hmtx(&metrics, nhm as u16), DKind::Hmtx { group: Some(0), metrics: metrics.clone(), nhm, legal: 3 }));
+        tables.push(push(&mut b, *b"glyf", glyf, DKind::Glyf(0)));
+        tables.push(push(&mut b, *b"loca", loca, DKind::Loca(0)));
+        let base = Member { flavour: 0x0001_0000, tables: tables.clone(), group: Some(0) };
+        b.members.push(base);
+        if sibling {
+            // a second member sharing everything but hhea/hmtx (all glyphs have long metrics)
+            let mut t2: Vec<usize> = tables.iter().copied().filter(|t| &b.dtables[*t].tag != b"hmtx" && &b.dtables[*t].tag != b"hhea").collect();
+            let m2: Vec<(u16, i16)> = metrics.iter().map(|m| (m.0 + 11, m.1)).collect();
+            t2.push(push(&mut b, *b"hhea", basic::hhea(800, -200, 517, n as u16), DKind::Plain));
+            t2.push(push(&mut b, *b"hmtx", basic::hmtx(&m2, n as u16), DKind::Hmtx { group: Some(0), metrics: m2, nhm: n, legal: 3 }));
+            b.members.push(Member { flavour: 0x0001_0000, tables: t2, group: Some(0) });
+        }
+        Some(b)
+    }
+
+    /// rebuilt glyf sizes to aim at: far below, straddling 131 070 / 131 072, far above
+    const TARGETS: [usize; 11] = [100_000, 131_040, 131_066, 131_068, 131_070, 131_072, 131_074, 131_076, 131_104, 160_000, 199_998];
+    /// (source loca long, glyf transformed, hmtx flags wanted, all glyphs long metrics, sibling member)
+    const VARIANTS: [(bool, bool, u8, bool, bool); 6] = [
+        (false, true, 0, true, false),
+        (false, true, 1, true, false),
+        (false, true, 1, false, true),
+        (true, true, 1, true, false),
+        (false, true, 3, false, false),
+        (false, false, 0, true, false),
+    ];
+    pub const BIG_ITEMS: u64 = (TARGETS.len() * VARIANTS.len()) as u64;
+
+    fn delivered_glyf_len(b: &Built, p: &Plan, e: &EncOpts) -> Result<usize, Fail> {
+        let bytes = encode(b, p, e);
+        let fd = ReadScope::new(&bytes).read::<FontData<'_>>().map_err(|e| fail("woff2-generated:read", format!("probe font: {:?}", e)))?;
+        let prov = fd.table_provider(0).map_err(|e| fail("woff2-generated:provider", format!("probe font: {:?}", e)))?;
+        let g = prov.read_table_data(tag::GLYF).map_err(|e| fail("woff2-generated:provider", format!("probe font glyf: {:?}", e)))?;
+        Ok(g.len())
+    }
+
+    pub fn check_big(item: u64, rec: &mut Rec) -> CaseResult {
+        let target = TARGETS[item as usize % TARGETS.len()];
+        let (long, xform, hmtx_want, nhm_all, sibling) = VARIANTS[item as usize / TARGETS.len() % VARIANTS.len()];
+        let e = EncOpts { glyf_xform: vec![xform as u8], hmtx_want: vec![hmtx_want], order: vec![], choices: vec![], bbox_choose: false, v2: item % 2 == 1, chunk: 65536 };
+        const NPTS: usize = 24;
+        // how many bytes does the decoder write per glyph? (measured on a small probe font; the
+        // value only steers the generator)
+        let per_glyph = {
+            let probe = big_font(64, NPTS, 0, long, true, false).ok_or_else(|| fail("harness:w2gen", "probe font too large".into()))?;
+            let pp = plan(&probe, &e);
+            let l = delivered_glyf_len(&probe, &pp, &e)?;
+            if l % 64 != 0 || l == 0 {
+                return Err(fail("harness:w2gen", format!("probe font: delivered glyf of {} bytes is not 64 equal records", l)));
+            }
+            l / 64
+        };
+        let n = target / per_glyph;
+        let extra = target - n * per_glyph;
+        let b = match big_font(n, NPTS, extra, long, nhm_all, sibling) {
+            Some(b) => b,
+            None => {
+                rec.class("w2gen-big:source-does-not-fit-short-loca (skipped)");
+                return Ok(());
+            }
+        };
+        let p = plan(&b, &e);
+        let bytes = encode(&b, &p, &e);
+        let what = format!("generated WOFF2 with {} glyphs (source glyf {} bytes, loca {}, glyf {}, hmtx flags {:#04b}{})", n, b.groups[0].glyf.len(), if long { "long" } else { "short" }, if xform { "transformed" } else { "null transform" }, p.hmtx_flags.iter().copied().max().unwrap_or(0), if sibling { ", 2 members" } else { "" });
+        // classify by the size the decoder actually delivered
+        let got_len = {
+            let fd = ReadScope::new(&bytes).read::<FontData<'_>>().map_err(|e| fail("woff2-generated:read", format!("{}: {:?}", what, e)))?;
+            let prov = fd.table_provider(0).map_err(|e| fail("woff2-generated:provider", format!("{}: {:?}", what, e)))?;
+            prov.read_table_data(tag::GLYF).map(|g| g.len()).unwrap_or(0)
+        };
+        rec.class(match got_len {
+            0..=131_069 => "w2gen-big:delivered-glyf<131070",
+            131_070 => "w2gen-big:delivered-glyf=131070",
+            131_071 => "w2gen-big:delivered-glyf=131071",
+            131_072 => "w2gen-big:delivered-glyf=131072",
+            131_073..=131_200 => "w2gen-big:delivered-glyf 131073..131200",
+            _ => "w2gen-big:delivered-glyf>131200",
+        });
+        rec.class_if(xform && got_len != target, "w2gen-big:target-size-missed");
+        rec.set_nontrivial(xform && !long && got_len > 100_000);
+        rec.sample(|| format!("{} -> delivered glyf {} bytes (target {})", what, got_len, target));
+        check_delivered(&b, &p, &bytes, &what, rec)
+    }
+}
+
 // ------------------------------------------------------------------------------ validator self-test
 
 /// The validator must accept a canonical font built by my encoders and must raise the expected
@@ -988,7 +1361,7 @@ impl Property for C09 {
         "Writers exercised: subset::subset and subset::prince::subset (Unrestricted / MacRoman / Omit / supplied MacRoman array, with and without CID conversion) with generated glyph lists \
          (glyph 0 first, distinct ids, individual picks plus contiguous runs of up to 420 glyphs, sorted / reversed / shuffled) on every fixture font <= 470 kB (TrueType, CFF, CFF2, variable, WOFF and WOFF2 providers; the 2 MB CID-keyed fixture in 1 of 24 cases) \
          and on generated BasicFonts (empty, simple, composite glyphs, odd instruction and table lengths, numberOfHMetrics < numGlyphs, short/long loca, BMP and astral cmaps); subset::whole_font with generated tag lists (subsets, permutations, duplicates, with and without the required tables); \
-         variations::instance on the variable fixtures at generated user coordinates (min / default / max / inside / outside); the tables delivered by the WOFF2 provider for every WOFF2 fixture. \
+         variations::instance on the variable fixtures at generated user coordinates (min / default / max / inside / outside); the tables delivered by the WOFF2 provider for every WOFF2 fixture and for generated WOFF2 files (C11's font models through the independent fontgen::woff2 encoder: single fonts and collections, glyf transformed or null-transformed, hmtx transformed with every legal flag combination, short/long loca; plus large fonts whose rebuilt glyf is 100-200 kB and straddles 131 070 / 131 072 bytes while head declares short offsets, so that the decoder has to switch loca format). \
          Every Ok output is checked by the independent validator refmodel::sfnt_validate: header, search fields, sorted directory, 4-byte alignment, bounds, overlap, zero padding (including the last table), per-table checksums, whole-file sum / head.checkSumAdjustment; \
          and for subsets, instances and WOFF2 tables: maxp/hhea/hmtx sizes, head.indexToLocFormat/loca width and monotonicity, every glyph parses inside its loca slice, component ids < numGlyphs and acyclic, cmap structure (formats 0/4/6/12: lengths, search fields, segment order, last segment 0xFFFF, all glyph ids < numGlyphs), post 2.0/3.0 sizes, \
          CFF/CFF2 (INDEX and DICT syntax, CharStrings count = numGlyphs, charset/Encoding/FDSelect/FDArray/Private/Subrs resolve, every charstring walks to endchar with all subroutine references in range); instances carry no variation tables. \
@@ -1015,6 +1388,9 @@ impl Property for C09 {
         ctx.section("instance", n, instance_strategy(), |c, rec| check_instance(c, rec));
         let files = fixtures::list("fonts/woff2", &["woff2"], 1 << 21).len() as u64;
         ctx.enumerate("woff2-tables", files, true, |i, rec| check_woff2_tables(i, rec));
+        let n = ctx.cases(1_200, 40_000);
+        ctx.section("woff2-generated", n, (crate::props::c11::case_strategy(), w2gen::enc_strategy()), |c, rec| w2gen::check_generated(c, rec));
+        ctx.enumerate("woff2-generated-large", w2gen::BIG_ITEMS, true, |i, rec| w2gen::check_big(i, rec));
         ctx.enumerate("validator-selftest", SELFTEST_ITEMS, true, |i, rec| check_validator_selftest(i, rec));
         let nsrc = sources().len() as u64;
         ctx.enumerate("fixture-sanity", nsrc, true, |i, rec| check_fixture_sanity(i, rec));
